@@ -262,10 +262,15 @@ def eval_cases(draw, tier="quick"):
     spec = draw(mdp_specs("discounted", max_states=5, allow_explicit=False, max_out=1 if det else 3,
                           zero_weights=not det, multi_p0=not det, absorbing_kinds=("n", "n", "n", "n", "abs")))
     kinds = ("deterministic",) if det else ("stochastic", "deterministic", "sixths")
+    n_sim = draw(st.integers(1, 20))
+    cap = draw(st.one_of(st.integers(0, 12), st.integers(0, 12), st.sampled_from([60, 400, 900])))
+    if draw(st.integers(0, 24)) == 0:
+        # many simulations (beyond any batch size an implementation may use internally), short roll-outs
+        n_sim, cap = draw(st.sampled_from([1000, 1001, 1500, 2048])), draw(st.integers(1, 5))
     return {"mdp": spec, "policy": draw(policy_specs(spec, kinds=kinds)), "kind": draw(st.sampled_from(["functional", "tabular"])),
-            "n": draw(st.integers(1, 20)), "seed": draw(st.integers(0, 10 ** 6)),
+            "n": n_sim, "seed": draw(st.integers(0, 10 ** 6)),
             # mostly short caps; sometimes caps far beyond any "effective horizon" of the discount
-            "max_steps": draw(st.one_of(st.integers(0, 12), st.integers(0, 12), st.sampled_from([60, 400, 900]))),
+            "max_steps": cap,
             "deterministic": det}
 
 
